@@ -1163,9 +1163,18 @@ func (f *framer) parseResultRows() frame {
 	if result.numRows < 0 {
 		panic(fmt.Errorf("invalid row_count in result frame: %d", result.numRows))
 	}
-	// every cell is a [bytes] with a 4 byte length: the rest of the frame bounds the number of rows
-	if cols := result.meta.colCount; result.numRows > 0 && (cols == 0 || result.numRows > len(f.buf)/4/cols) {
-		panic(fmt.Errorf("invalid row_count in result frame: %d rows of %d columns in %d bytes", result.numRows, cols, len(f.buf)))
+	// every cell is a [bytes] with a 4 byte length: the rest of the frame bounds the number of rows.
+	// Rows without columns take no bytes at all; their number is bounded by the size of the body.
+	if cols := result.meta.colCount; result.numRows > 0 {
+		maxRows := len(f.buf) / 4
+		if cols > 0 {
+			maxRows /= cols
+		} else if f.header != nil {
+			maxRows = f.header.length
+		}
+		if result.numRows > maxRows {
+			panic(fmt.Errorf("invalid row_count in result frame: %d rows of %d columns in %d bytes", result.numRows, cols, len(f.buf)))
+		}
 	}
 
 	return result
